@@ -148,6 +148,14 @@ class Check:
                                     failing_input=failing_input, size=size if size is not None else len(json.dumps(case, default=str))))
 
     def finish(self, level='proof', assumptions_extra=()):
+        # a run that could evaluate (almost) nothing shows nothing: the property is no longer shown to hold
+        skipped = sum(v for k, v in self.hist.items() if k.startswith('library-exception') or k.startswith('skipped'))
+        if self.evaluations == 0 or (skipped > 0 and skipped >= 0.6 * max(1, self.evaluations + skipped) and not os.environ.get('VERIF_ALLOW_SKIPS')):
+            self.violation('corr:%s/coverage' % self.pid, 'nothing-evaluated', {}, None,
+                           dict(evaluations=self.evaluations, skipped=skipped,
+                                skip_reasons={k: v for k, v in self.hist.items() if k.startswith('library-exception') or k.startswith('skipped')},
+                                note='the implementation raised outside the modelled code path on (almost) every case; nothing was compared'),
+                           failing_input=False)
         findings = json.load(open(os.path.join(ROOT, 'known_findings.json')))
         
         known = [f for f in findings if f['property'] == self.pid and f['status'] == 'known']
